@@ -144,7 +144,7 @@ class BaseFunctionSpace(AbstractFunctionSpace, UFLObject):
 
     def __repr__(self):
         """Representation."""
-        label = f", label={self._label!r}" if self._label else ""
+        label = f", label={self._label!r}" if self._label != "" else ""
         return f"BaseFunctionSpace({self._ufl_domain!r}, {self._ufl_element!r}{label})"
 
     @property
@@ -178,7 +178,7 @@ class FunctionSpace(BaseFunctionSpace, UFLObject):
 
     def __repr__(self):
         """Representation."""
-        label = f", label={self._label!r}" if self._label else ""
+        label = f", label={self._label!r}" if self._label != "" else ""
         return f"FunctionSpace({self._ufl_domain!r}, {self._ufl_element!r}{label})"
 
     def __str__(self):
@@ -210,7 +210,7 @@ class DualSpace(BaseFunctionSpace, UFLObject):
 
     def __repr__(self):
         """Representation."""
-        label = f", label={self._label!r}" if self._label else ""
+        label = f", label={self._label!r}" if self._label != "" else ""
         return f"DualSpace({self._ufl_domain!r}, {self._ufl_element!r}{label})"
 
     def __str__(self):
